@@ -2,6 +2,8 @@ package main
 
 import (
 	"fmt"
+	"github.com/huderlem/poryscript/lexer"
+	"github.com/huderlem/poryscript/token"
 	"runtime"
 	"strings"
 	"sync"
@@ -199,6 +201,56 @@ func checkC18(c *Ctx) {
 		for i, p := range ctlPrograms(c, ctl["one.ndjson"], "rb", 1, 0) {
 			inputs = append(inputs, robustInput{RenderProg(p, Style{R: r}), Opts{Optimize: i%2 == 0}})
 		}
+	}
+	// the complete single-edit neighbourhood of every condition shape of <= 3 leaves (GenExpr):
+	// the condition parser must answer every near-miss of every expression it accepts
+	if shapes, forms, ok := runGenExpr(c, 4); ok {
+		every := 25
+		if !c.Quick() {
+			every = 1
+		}
+		n := 0
+		for si, sh := range shapes {
+			if sh.leaves() > 3 {
+				continue
+			}
+			idx := 0
+			e := instantiate(sh, forms, si, &idx, r)
+			src := RenderProg(condProgram(fmt.Sprintf("X%d", si), e, si%4), Style{Parens: si%2 == 1})
+			var toks []string
+			lx := lexer.New(src)
+			for k := 0; k < 400; k++ {
+				t := lx.NextToken()
+				if t.Type == token.EOF {
+					break
+				}
+				toks = append(toks, t.Literal)
+			}
+			o := Opts{Optimize: si%2 == 0, AutoVar: genAutoVar()}
+			add := func(m []string) {
+				n++
+				if sampled(n, c.Seed, every) {
+					inputs = append(inputs, robustInput{join(m), o})
+				}
+			}
+			for i := range toks {
+				add(append([]string{}, toks[:i]...))
+				add(append(append([]string{}, toks[:i]...), toks[i+1:]...))
+				add(append(append(append([]string{}, toks[:i+1]...), toks[i]), toks[i+1:]...))
+				if i+1 < len(toks) {
+					m := append([]string{}, toks...)
+					m[i], m[i+1] = m[i+1], m[i]
+					add(m)
+				}
+				for _, v := range mutVocab {
+					m := append([]string{}, toks...)
+					m[i] = v
+					add(m)
+					add(append(append(append([]string{}, toks[:i]...), v), toks[i:]...))
+				}
+			}
+		}
+		c.Cov("condition_neighbourhood_size", int64(n))
 	}
 	// a few long / deep inputs (prompt termination and bounded growth)
 	deep := strings.Repeat("if (flag(A)) { ", 400) + "x" + strings.Repeat(" }", 400)
